@@ -49,6 +49,8 @@ class PF(T.P):
                 if self.peek() == '}': tail = m; break
                 self.accept(';'); stmts.append(('matchstmt', m)); continue
             e = self.expr()
+            if self.accept('+='):
+                r = self.expr(); self.expect(';'); stmts.append(('addassign', e, r)); continue
             if self.accept(';'): stmts.append(('expr', e)); continue
             tail = e; break
         self.expect('}'); self.no_struct = old
@@ -96,7 +98,9 @@ class PF(T.P):
                 if depth: toks.append(x)
             return ('macro', name, toks)
         if t == '|':                       # closure |x| body
-            self.next(); v = self.next(); self.expect('|'); body = self.expr(); return ('closure', v, body)
+            self.next(); v = self.next(); self.expect('|')
+            if self.peek() == '{': return ('closure', v, ('block', self.block()))
+            body = self.expr(); return ('closure', v, body)
         return super().atom()
     def match(self):
         self.expect('match'); scrut = self.expr_no_struct(); self.expect('{'); arms = []
@@ -138,6 +142,7 @@ class EF(T.Emit):
             return None
         if k == 'field':
             f = e[2]
+            if f == '0': return 'range'
             if f in ('major', 'minor', 'patch'): return 'N'
             if f in ('pre_release', 'build'): return 'idents'
             if f in ('lower', 'upper'): return 'bound'
@@ -146,7 +151,7 @@ class EF(T.Emit):
             n = e[2]
             if n in ('is_prerelease', 'is_empty'): return 'bool'
             if n == 'cmp': return 'cmp'
-            if n in ('clone', 'as_ref'): return self.ty(e[1])
+            if n in ('clone', 'as_ref', 'iter', 'into_iter'): return self.ty(e[1])
             if n == 'predicate': return 'pred'
             if n == 'flip': return 'pred'
             if n == 'len': return 'nat'
@@ -165,6 +170,7 @@ class EF(T.Emit):
         r = self.expr(recv); t = self.ty(recv)
         if t == 'boundset' or f in ('lower', 'upper'):
             return '(bs_%s %s)' % (f, r)
+        if f == '0': return r
         m = {'major': 'major', 'minor': 'minor', 'patch': 'patch', 'pre_release': 'pre', 'build': 'build'}
         if f in m: return '(%s %s)' % (m[f], r)
         raise Unsupported('field .%s' % f)
@@ -188,6 +194,23 @@ class EF(T.Emit):
             if name == 'predicate': return '(predicate %s)' % self.expr(recv)
             if name == 'flip': return '(flip %s)' % self.expr(recv)
             if name == 'intersect': return '(bs_intersect %s %s)' % (self.expr(recv), self.expr(args[0]))
+            if name == 'satisfies':
+                t = self.ty(recv)
+                if t == 'boundset': return '(bs_satisfies %s %s)' % (self.expr(recv), self.expr(args[0]))
+                if t == 'range': return '(r_satisfies %s %s)' % (self.expr(recv), self.expr(args[0]))
+                raise Unsupported('.satisfies() on a receiver of unknown type')
+            if name in ('filter', 'filter_map', 'find') and args and args[0][0] == 'closure':
+                v, body = args[0][1], args[0][2]
+                saved = dict(self.env); self.env[v] = self.elem_ty(recv)
+                if body[0] == 'block': b = self.block_value(body[1])
+                else: b = self.expr(body)
+                self.env = saved
+                l = self.expr(recv)
+                if name == 'filter': return '(filter (fun %s => %s) %s)' % (T.ident(v), b, l)
+                if name == 'find': return '(find (fun %s => %s) %s)' % (T.ident(v), b, l)
+                return '(flat_map (fun %s => opt_to_list %s) %s)' % (T.ident(v), b, l)
+            if name == 'min' and not args: return '(iter_min %s)' % self.expr(recv)
+            if name == 'max' and not args: return '(iter_max %s)' % self.expr(recv)
             if name in ('max', 'min') and self.ty(recv) == 'bound': return '(b%s %s %s)' % (name, self.expr(recv), self.expr(args[0]))
             if name == 'cmp':
                 t = self.ty(recv)
@@ -208,11 +231,14 @@ class EF(T.Emit):
             s = e[1]
             if s[0] != 'if' or s[3] is None: raise Unsupported('if without else in expression position')
             (st1, t1), (st2, t2) = s[2], s[3]
-            if st1 or st2 or t1 is None or t2 is None: raise Unsupported('statements inside an if expression')
-            return '(if %s then %s else %s)' % (self.expr(s[1]), self.expr(t1), self.expr(t2))
+            if t1 is None or t2 is None: raise Unsupported('an if expression without a value')
+            if self.panics and (st1 or st2): raise Unsupported('statements inside an if expression of a function that can panic')
+            return '(if %s then %s else %s)' % (self.expr(s[1]), self.block_value(s[2]) if st1 else self.expr(t1), self.block_value(s[3]) if st2 else self.expr(t2))
         if k == 'block':
             st, t = e[1]
-            if st: raise Unsupported('statements inside a block expression')
+            if st:
+                if self.panics: raise Unsupported('statements inside a block expression of a function that can panic')
+                return self.block_value(e[1])
             return self.expr(t)
         if k == 'macro' and e[1] == 'write': return self.write(e[2])
         return super().expr(e)
@@ -239,6 +265,15 @@ class EF(T.Emit):
         if t == 'version':
             return {'<': '(vlt %s %s)', '<=': '(vle %s %s)', '>': '(vlt %s %s)', '>=': '(vle %s %s)', '==': '(veqb %s %s)', '!=': '(negb (veqb %s %s))'}[op] % ((x, y) if op not in ('>', '>=') else (y, x))
         raise Unsupported('cannot type the operands of `%s`' % op)
+    def elem_ty(self, e):
+        t = self.ty(e)
+        if t == 'range': return 'boundset'
+        if t in ('versions', 'candidates'): return 'version'
+        return 'version'
+    def block_value(self, blk):
+        sub = EF(self.env, False, self.strings); sub.fresh = self.fresh + 100
+        r = sub.stmts(blk[0], blk[1], None); self.fresh = sub.fresh
+        return r
     def write(self, toks):
         # write!(f, "fmt", args..)
         if len(toks) < 3 or toks[0] != 'f' or not toks[2].startswith('__str'): raise Unsupported('write! form')
@@ -305,6 +340,21 @@ class EF(T.Emit):
                 self.bind(pat, 'optv')
             return '(let %s := %s in\n  %s)' % (self.pat(pat), v, self.stmts(rest, tail, k))
         if s[0] == 'return': return self.ret(s[1])
+        if s[0] == 'addassign':
+            lhs, rhs = s[1], s[2]
+            if lhs[0] != 'field' or lhs[1][0] != 'var' or lhs[2] not in ('major', 'minor', 'patch'): raise Unsupported('+= on something that is not a numeric field of a variable')
+            x = T.ident(lhs[1][1]); f = lhs[2]
+            flds = {k: '(%s %s)' % (k, x) for k in ('major', 'minor', 'patch', 'build', 'pre')}
+            flds[f] = '(%s %s + %s)' % (f, x, self.expr(rhs))
+            return '(let %s := (mkV %s %s %s %s %s) in\n  %s)' % (x, flds['major'], flds['minor'], flds['patch'], flds['build'], flds['pre'], self.stmts(rest, tail, k))
+        if s[0] == 'expr':
+            e = s[1]
+            if e[0] == 'method' and e[2] == 'push' and e[1][0] == 'field' and e[1][1][0] == 'var' and e[1][2] in ('pre_release', 'build'):
+                x = T.ident(e[1][1][1]); f = {'pre_release': 'pre', 'build': 'build'}[e[1][2]]
+                flds = {kk: '(%s %s)' % (kk, x) for kk in ('major', 'minor', 'patch', 'build', 'pre')}
+                flds[f] = '(%s %s ++ [%s])' % (f, x, self.expr(e[3][0]))
+                return '(let %s := (mkV %s %s %s %s %s) in\n  %s)' % (x, flds['major'], flds['minor'], flds['patch'], flds['build'], flds['pre'], self.stmts(rest, tail, k))
+            raise Unsupported('expression statement')
         if s[0] in ('if', 'iflet'): return self.stmt_if(s, rest, tail, k)
         if s[0] == 'matchstmt': return self.stmt_match(s[1], rest, tail, k)
         raise Unsupported('statement %s' % s[0])
@@ -454,6 +504,17 @@ def defs():
           'Proof. intros a b. unfold bs_difference_src, bs_difference. destruct (bs_intersect a b) as [o|]; [|reflexivity].\n'
           '  destruct (bs_eqb o a); [reflexivity|]. destruct (blt (bs_lower a) (bs_lower o)), (blt (bs_upper o) (bs_upper a)); cbn [andb];\n'
           '  repeat match goal with |- context [bs_new ?x ?y] => destruct (bs_new x y) end; reflexivity. Qed.\n'),
+      'min_version': (RNG, r'pub\s+fn\s+min_version\s*\(&self\)\s*->\s*Option<Version>\s*\{', {'self': 'range', 'set': 'boundset'}, False,
+          'Definition min_version_src (self_ : range) : option version :=\n  %s.\n',
+          'Theorem min_version_src_ok : forall r, min_version_src r = r_min_version r.\n'
+          'Proof. intro r. unfold min_version_src, r_min_version. f_equal. apply flat_map_ext. intro bs. unfold bs_min, min_candidates, push0, bump_patch, v3, v4. f_equal.\n'
+          '  destruct (bs_lower bs) as [[v|v|]|p]; try reflexivity. destruct (is_pre v); reflexivity. Qed.\n'),
+      'max_satisfying': (RNG, r"pub\s+fn\s+max_satisfying<'v>\s*\(&self,\s*versions:\s*&'v\s*\[Version\]\)\s*->\s*Option<&'v\s+Version>\s*\{", {'self': 'range', 'versions': 'versions'}, False,
+          'Definition max_satisfying_src (self_ : range) (versions : list version) : option version :=\n  %s.\n',
+          'Theorem max_satisfying_src_ok : forall r l, max_satisfying_src r l = r_max_satisfying r l.\nProof. reflexivity. Qed.\n'),
+      'min_satisfying': (RNG, r"pub\s+fn\s+min_satisfying<'v>\s*\(&self,\s*versions:\s*&'v\s*\[Version\]\)\s*->\s*Option<&'v\s+Version>\s*\{", {'self': 'range', 'versions': 'versions'}, False,
+          'Definition min_satisfying_src (self_ : range) (versions : list version) : option version :=\n  %s.\n',
+          'Theorem min_satisfying_src_ok : forall r l, min_satisfying_src r l = r_min_satisfying r l.\nProof. reflexivity. Qed.\n'),
       'bs_print': (RNG, r'impl\s+fmt::Display\s+for\s+BoundSet\s*\{\s*fn\s+fmt\s*\(&self,\s*f:\s*&mut\s+fmt::Formatter<\'_>\)\s*->\s*fmt::Result\s*\{', B, True,
           'Definition bs_print_src (self_ : boundset) : res str :=\n  %s.\n',
           'Theorem bs_print_src_ok : forall bs, bs_print_src bs = bs_print bs.\n'
@@ -462,7 +523,7 @@ def defs():
 USED_BY = {'is_prerelease': ['C03', 'C04'], 'version_eq': ['C04'], 'version_cmp': ['C04'], 'version_diff': ['C16'],
            'flip': ['C08'], 'predicate': ['C08'], 'at_least': ['C01'], 'at_most': ['C01'], 'exact': ['C01'],
            'bs_satisfies': ['C03', 'C06'], 'bs_allows_all': ['C10'], 'bs_allows_any': ['C09'], 'bs_intersect': ['C07'],
-           'bs_difference': ['C08', 'C06'], 'bs_print': ['C13']}
+           'bs_difference': ['C08', 'C06'], 'bs_print': ['C13'], 'min_version': ['C11', 'C06'], 'max_satisfying': ['C14'], 'min_satisfying': ['C14']}
 
 def run(only=None):
     os.makedirs(GEN, exist_ok=True)
